@@ -136,7 +136,32 @@ static int stress(unsigned seed, int nthreads, int iters, const std::string &mix
   return 0;
 }
 
+// First use of the library from several threads at once: occa::settings() initialises the shared
+// settings object under its own mutex; readers must never see it half-built.
+static int firstUse(int nthreads) {
+  std::atomic<int> ready(0), go(0), bad(0);
+  std::vector<std::thread> th;
+  for (int t = 0; t < nthreads; ++t) {
+    th.emplace_back([&]() {
+      ready.fetch_add(1);
+      while (!go.load()) std::this_thread::yield();
+      occa::json &s = occa::settings();
+      if (!s.size() || !s.has("version")) bad.fetch_add(1);
+      std::string d = s.dump(0);
+      if (d.size() < 2) bad.fetch_add(1);
+    });
+  }
+  while (ready.load() < nthreads) std::this_thread::yield();
+  go = 1;
+  for (auto &x : th) x.join();
+  std::printf("firstuse threads %d incomplete %d\n", nthreads, bad.load());
+  if (bad.load()) hp::oracle("a thread saw incomplete settings during the first concurrent use of occa::settings()");
+  std::printf("result done\n");
+  return 0;
+}
+
 int main(int argc, char **argv) {
+  if (argc >= 3 && std::string(argv[1]) == "firstuse") return firstUse(atoi(argv[2]));
   if (argc >= 3 && std::string(argv[1]) == "replay-f34") return replayF34(argv[2]);
   if (argc >= 6 && std::string(argv[1]) == "stress")
     return stress((unsigned) atoi(argv[2]), atoi(argv[3]), atoi(argv[4]), argv[5]);
